@@ -481,7 +481,115 @@ def run_tables(repo):
                 if _const_str(v) and _const_str(v) not in files_read:
                     files_read.append(v.value)
     return dict(routes=sorted(set(routes)), data_keys=data_keys, files_read=files_read,
-                translations=trans)
+                translations=trans, clean_mode=_clean_mode(fn))
+
+
+def _clean_mode(fn):
+    """The `what` of the single `sim.clean(..)` call of the --clean branch of
+    cli/run.py ('' = called without argument -> the default of Simulation.clean).
+    Fail closed on any other shape."""
+    found = []
+
+    def visit(node, in_clean):
+        for ch in ast.iter_child_nodes(node):
+            inside = in_clean
+            if isinstance(node, ast.If) and ch in node.body \
+                    and ast.unparse(node.test) == "term['clean']":
+                inside = True
+            if (isinstance(ch, ast.Call) and isinstance(ch.func, ast.Attribute)
+                    and ch.func.attr == 'clean'):
+                found.append((ch, inside))
+            visit(ch, inside)
+    visit(fn, False)
+    if len(found) != 1:
+        raise Shape(f'run.py: expected exactly one .clean(..) call, found {len(found)}')
+    call, inside = found[0]
+    if not inside or ast.unparse(call.func) != 'sim.clean':
+        raise Shape("run.py: sim.clean(..) is not inside `if term['clean']:`")
+    if call.keywords and not (len(call.keywords) == 1 and call.keywords[0].arg == 'what'
+                              and not call.args):
+        raise Shape('run.py: sim.clean called with unexpected keywords')
+    args = list(call.args) + [k.value for k in call.keywords]
+    if not args:
+        return ''
+    if len(args) != 1 or _const_str(args[0]) is None:
+        raise Shape('run.py: sim.clean(..) argument is not a string constant')
+    return args[0].value
+
+
+def clean_tables(repo):
+    """What each mode of Simulation.clean resets: {mode: [state names]}, and
+    the default mode.  State names: attributes (`_misfit`), `_computed`,
+    `data.<key>` for data variables deleted or re-initialised."""
+    tree = ast.parse(_src(repo, 'emg3d/simulations.py'))
+    fn = _func(tree, 'clean', 'Simulation')
+    if [a.arg for a in fn.args.args] != ['self', 'what'] or len(fn.args.defaults) != 1 \
+            or _const_str(fn.args.defaults[0]) is None:
+        raise Shape('Simulation.clean signature changed')
+    default = fn.args.defaults[0].value
+    modes, resets = None, {}
+    for st in fn.body:
+        if isinstance(st, ast.Expr) and isinstance(st.value, ast.Constant):
+            continue                                            # docstring
+        if not isinstance(st, ast.If):
+            raise Shape('Simulation.clean: unexpected statement ' + ast.unparse(st)[:60])
+        t = st.test
+        if (isinstance(t, ast.Compare) and len(t.ops) == 1 and ast.unparse(t.left) == 'what'
+                and _str_list(t.comparators[0]) is not None):
+            lst = _str_list(t.comparators[0])
+            if isinstance(t.ops[0], ast.NotIn):
+                if not any(isinstance(b, ast.Raise) for b in st.body):
+                    raise Shape('Simulation.clean: mode check does not raise')
+                modes = lst
+                continue
+            if isinstance(t.ops[0], ast.In) and not st.orelse:
+                names = _clean_block_names(st.body)
+                for m in lst:
+                    resets.setdefault(m, [])
+                    resets[m] += [n for n in names if n not in resets[m]]
+                continue
+        raise Shape('Simulation.clean: unexpected condition ' + ast.unparse(t)[:60])
+    if not modes or any(m not in modes for m in resets):
+        raise Shape('Simulation.clean: modes not recognised')
+    for m in modes:
+        resets.setdefault(m, [])
+    return dict(default=default, resets=resets)
+
+
+def _clean_block_names(stmts):
+    names = []
+    for st in stmts:
+        if isinstance(st, ast.For) and isinstance(st.target, ast.Name):
+            lst = _str_list(st.iter)
+            if lst is None:
+                if 'unlink' in ast.unparse(st):
+                    continue                                    # removing field files
+                raise Shape('Simulation.clean: loop over unknown list')
+            body = ast.unparse(st)
+            v = st.target.id
+            if f'delattr(self, {v})' in body:
+                names += lst
+            elif f'del self.data[{v}]' in body:
+                names += ['data.' + k for k in lst]
+            else:
+                raise Shape('Simulation.clean: unrecognised loop body')
+        elif isinstance(st, ast.Assign) and len(st.targets) == 1:
+            t = st.targets[0]
+            src = ast.unparse(t)
+            m = re.fullmatch(r"self\.data\['(\w+)'\]", src)
+            if m:
+                names.append('data.' + m.group(1))
+            elif re.fullmatch(r'self\.(\w+)', src):
+                names.append(src.split('.', 1)[1])
+            else:
+                raise Shape('Simulation.clean: unrecognised assignment ' + src)
+        elif isinstance(st, ast.If):
+            if 'unlink' in ast.unparse(st) or 'file_dir' in ast.unparse(st.test):
+                continue
+            names += _clean_block_names(st.body)
+        else:
+            raise Shape('Simulation.clean: unrecognised statement ' + ast.unparse(st)[:60])
+    return names
 
 
 # ---------------------------------------------------------------------- API
@@ -585,7 +693,12 @@ def tables(repo):
     sel = acc.pop('select')
     acc['data'] = [k for k in r['data_keys'] if k in sel]
     acc['files'] = list(r['files_read'])
-    return dict(parser=p, doc=d, term=t, run=r, api=acc)
+    c = clean_tables(repo)
+    if r['clean_mode'] == '':
+        r['clean_mode'] = c['default']
+    if r['clean_mode'] not in c['resets']:
+        raise Shape(f"run.py cleans with unknown mode {r['clean_mode']!r}")
+    return dict(parser=p, doc=d, term=t, run=r, api=acc, clean=c)
 
 
 def coq_text(T):
@@ -629,4 +742,7 @@ def coq_text(T):
             [f"({_s(pa)}, {_s(o)}, {_s(n)})" for (pa, o, n) in r['translations']])
     deflist('routes', '(string * string)',
             [f"({_s(pa)}, {_s(f)})" for (pa, f) in r['routes']])
-    return '\n'.join(L).replace('[].', '[].') + '\n'
+    L.append(f"Definition clean_mode : string := {_s(r['clean_mode'])}.")
+    deflist('clean_resets', '(string * list string)',
+            [f"({_s(k)}, {_sl(v)})" for k, v in T['clean']['resets'].items()])
+    return '\n'.join(L) + '\n'
